@@ -1,5 +1,6 @@
 """Older-format documents written the way an older library would have written them (doc/*-1.0.rst, *-1.1.rst and the
 documented legacy mappings), together with the facts a faithful upgrade must preserve.  Used by C05, C10 and C15."""
+import json
 from hypothesis import strategies as st
 
 from pbt import gen, im as imm, manifests as mf
@@ -45,7 +46,13 @@ def legacy_images_desc(draw, versions=("1.0", "1.1")):
                 entries.append({"variant": variant, "arch": arch, "rec": record(arch, variant)})
         if layout[variant]["has_src"]:
             for _ in range(draw(st.integers(0, 3))):          # 0: the document says "src": []
-                entries.append({"variant": variant, "arch": "src", "rec": record("src", variant)})
+                shared = [e["rec"] for e in entries if e["arch"] == "src" and e["variant"] != variant]
+                mine = [e["rec"]["path"] for e in entries if e["arch"] == "src" and e["variant"] == variant]
+                if shared and draw(st.integers(0, 2)) == 0 and shared[0]["path"] not in mine:
+                    # the one source ISO of the compose, listed by several variants: the very same record once more
+                    entries.append({"variant": variant, "arch": "src", "rec": json.loads(json.dumps(shared[0])), "shared": True})
+                else:
+                    entries.append({"variant": variant, "arch": "src", "rec": record("src", variant)})
     return {"version": version, "compose": draw(gen.compose_section_desc()), "layout": layout, "entries": entries, "key_order": draw(st.integers(0, 2))}
 
 
@@ -293,7 +300,9 @@ def legacy_ti_desc(draw):
         for n in tim.all_nodes(desc["variants"]):
             n["paths"].pop("packages", None)
             n["paths"].pop("repository", None)
-    return {"version": version, "desc": desc, "use_main": draw(st.booleans())}
+    # the documented variant section lists child variants under 'variants' and child add-ons under 'addons'; this library writes
+    # all children under 'addons'.  Other producers follow the documentation: split by type / everything under 'variants'
+    return {"version": version, "desc": desc, "use_main": draw(st.booleans()), "child_keys": draw(st.sampled_from(["as-written", "by-type", "by-type", "all-variants"]))}
 
 
 def legacy_ti_text(case, current_text):
@@ -316,6 +325,17 @@ def legacy_ti_text(case, current_text):
                         ini[sec]["repository"] = ini[sec].pop("source_repository")
     else:
         ini = {s: o for s, o in ini.items() if s in ("general", "stage2", "checksums") or s.startswith("images-")}
+    if version != "0.0" and case.get("child_keys", "as-written") != "as-written":
+        types = dict((n["uid"], n["type"]) for n in tim.all_nodes(desc["variants"]))
+        for sec in ini:
+            if (sec.startswith("variant-") or sec.startswith("addon-")) and "addons" in ini[sec]:
+                kids = ini[sec].pop("addons").split(",")
+                under_addons = [k for k in kids if types[k] == "addon" and case["child_keys"] == "by-type"]
+                under_variants = [k for k in kids if k not in under_addons]
+                if under_addons:
+                    ini[sec]["addons"] = ",".join(under_addons)
+                if under_variants:
+                    ini[sec]["variants"] = ",".join(under_variants)
     out = []
     for sec in sorted(ini):
         out.append("[%s]" % sec)
